@@ -132,6 +132,25 @@ def _wrap_ret(sig: str, name: str) -> str:
     return sig[:toks[j].start] + "(" + name + ": " + ty + ")" + (" " + sig[end:] if end < len(sig) else "")
 
 
+def _find_macro_body(src: str, name: str) -> rt.FnItem:
+    """Locate `macro_rules! name { (...) => {{ BODY }}; }` and return BODY's brace span as if it
+    were a function body (single-rule macros whose transcriber is a block)."""
+    toks = rt.tokenize(src)
+    for i, t in enumerate(toks):
+        if t.kind == "id" and t.text == "macro_rules" and i + 3 < len(toks) and toks[i + 1].text == "!" and toks[i + 2].text == name and toks[i + 3].text == "{":
+            end = rt.match_close(toks, i + 3)
+            j = i + 4
+            while j < end:
+                if toks[j].text == "=" and toks[j + 1].text == ">" and toks[j + 2].text == "{":
+                    outer = j + 2
+                    inner = outer + 1 if toks[outer + 1].text == "{" else outer
+                    close = rt.match_close(toks, inner)
+                    return rt.FnItem(name, toks[i].start, toks[i].start, toks[inner].start, toks[close].start, False, None,
+                                     src.count("\n", 0, toks[i].start) + 1)
+                j += 1
+    raise ExtractError("macro_rules! %s not found" % name)
+
+
 def _apply_unit(repo: str, header: str, body_lines: List[str], tpl_name: str) -> Tuple[str, UnitInfo]:
     hm = re.match(r"//@unit\s+(\S+)\s+(.*)$", header.strip())
     if not hm:
@@ -142,7 +161,11 @@ def _apply_unit(repo: str, header: str, body_lines: List[str], tpl_name: str) ->
         src = open(path, encoding="utf-8").read()
     except OSError as e:
         raise ExtractError("cannot read %s: %s" % (path, e))
-    fn = rt.find_fn(src, kv["fn"], kv.get("impl"), int(kv.get("nth", "1")))
+    if "macro" in kv:
+        fn = _find_macro_body(src, kv["macro"])
+        kv["fn"] = "macro_rules! " + kv["macro"]
+    else:
+        fn = rt.find_fn(src, kv["fn"], kv.get("impl"), int(kv.get("nth", "1")))
     item_text = src[fn.start:fn.body_close + 1]
     sig = src[fn.start:fn.body_open].rstrip()
     body = src[fn.body_open:fn.body_close + 1]        # includes braces
